@@ -186,8 +186,8 @@ def t_inventory(eng):
             # still accepted if every class of function this one belongs to already writes that piece of state
             ph = phases_of(q, cg, callers)
             wn = written_name(w[0], w[1])
-            if ph and wn[0] == 'attr' and all(wn in allowed.get(c, ()) for c in ph):
-                continue
+            if ph and wn[0] in ('attr', 'dynamic') and all(wn in allowed.get(c, ()) for c in ph):
+                continue        # ('dynamic': setattr/delattr with a computed name, accepted only where that class already does it)
             new.append((q, w))
     eng.notes.append('inventory: %d write records in %d functions' % (sum(len(v) for v in inv.values()), len(inv)))
     # a helper that mutates one of its parameters touches persistent state only if a caller hands it some: accepted when
@@ -221,6 +221,9 @@ def t_inventory(eng):
                     if k == 'inplace-alias' and any(qq == q and kk == k and written_name(kk, tt) == written_name(k, t)
                                                     for (qq, kk, tt) in INPLACE_JUSTIFIED):
                         continue           # the same aliased state under another local name
+                    wn = written_name(k, t)
+                    if k.endswith('-alias') and wn[0] == 'attr' and all(wn in allowed.get(c, ()) for c in ph):
+                        continue           # a store through a local alias of state that this class of function writes anyway
                     unjust.append((q, k, t))
     eng.oblige(n + 'in-place-writes-through-parameters-or-aliases-are-justified', not unjust, detail=str(unjust))
     eng.cover('inventory')
